@@ -18,6 +18,7 @@ var (
 	verifGrowArmed  bool
 	verifGrowBudget int
 	verifGrowLocks  int
+	verifGrowLockCnt = map[sync.Locker]int{}
 )
 
 // verifOnLock is called by the executor before a Lock on a mutex this call has locked before.
@@ -56,9 +57,11 @@ func verifLock(mu sync.Locker) {
 	if verifDoneArmed && mu == sync.Locker(&verifDoneW.gb.mu) {
 		verifOnLock()
 	}
-	if verifGrowArmed && mu == sync.Locker(&verifGrowW.gb.mu) {
-		verifGrowLocks++
-		if verifGrowLocks >= 2 {
+	if verifGrowArmed {
+		// like the executor: the hook runs before every re-acquisition of a mutex this call has
+		// locked before (the balancer's or the picker's)
+		verifGrowLockCnt[mu]++
+		if verifGrowLockCnt[mu] >= 2 {
 			verifOnLock()
 		}
 	}
@@ -86,6 +89,7 @@ func VerifH_grow() {
 	verifAssume(w.cc.published && gb.picker == balancer.Picker(w.pk) && len(w.pk.scRefs) > 0)
 	verifGrowW = w
 	verifGrowLocks = 0
+	verifGrowLockCnt = map[sync.Locker]int{}
 	verifGrowBudget = verifCase("interference")
 	ctx := &verifCtx{}
 	verifResetLocks()
